@@ -122,9 +122,9 @@ func TestC20Requested(t *testing.T) {
 	var cases []reqCase
 	for _, gen := range []string{"range", "static", "none"} {
 		for _, network := range []string{"udp4", "udp6", "tcp4", "tcp6"} {
-			addrs := []string{"0.0.0.0", "10.9.0.1"}
+			addrs := []string{"0.0.0.0", "10.9.0.1", "relay.test"} // the last one: a host name (legal wherever the generator takes an address)
 			if network[3] == '6' {
-				addrs = []string{"::", "fd00:9::1"}
+				addrs = []string{"::", "fd00:9::1", "relay6.test"}
 			}
 			for _, addr := range addrs {
 				retries := []int{0}
@@ -166,7 +166,7 @@ func TestC20Requested(t *testing.T) {
 		c := cases[ci]
 		rep.Current(c)
 		proto := c.Network[:3]
-		bindIP := net.ParseIP(c.Address)
+		bindIP := simnet.Resolve(c.Address)
 		nw := simnet.New()
 		nw.ModelReusePort = true
 		nw.LogOff = true
